@@ -159,7 +159,7 @@ template <class View> static Outcome run_view(const View& v, const Case& c, size
             err = "after executing the threads in order [" + o + (order.size() > 24 ? ",..." : "") + "] output cell " + std::to_string(k) + " holds " + (bits(out[k]) == pat ? std::string("poison (never written)") : std::to_string(out[k])) + ", host evaluation has " + std::to_string(want[k]); return false; }
         return true;
     };
-    size_t perm_bound = thorough ? 8 : 6, dup_bound = thorough ? 6 : 5;
+    size_t perm_bound = thorough ? 7 : 6, dup_bound = thorough ? 6 : 5;   // (all 8! orders of every 8-thread launch took > 2 CPU-hours: the thorough tier stops at 7 threads)
     std::vector<int> ids((size_t)T); for (size_t i = 0; i < T; i++) ids[i] = (int)i;
     bool alt = false;
     if (T <= perm_bound) {
